@@ -21,9 +21,17 @@
 (***************************************************************************)
 EXTENDS TraceLib, Hashring
 
+(*  in.kind = "conc" (phase 2): one selector; a goroutine keeps calling SetServers with list A,  *)
+(*     list B and a list that does not resolve (which must change nothing), while others call  *)
+(*     PickServer, PickServerForKeys and Each.  Servers are ids 1..m over the union of A and B *)
+(*     (0 = the "no servers" error).  pick_a / pick_b: the pick of every key under A / B       *)
+(*     (computed beforehand, sequentially, by the real selector); picks = distinct observed    *)
+(*     [k, s]; batches = distinct whole PickServerForKeys answers; eachs = distinct Each()     *)
+(*     visiting orders; list_a / list_b = Each() order under A / B; crashes = recovered panics.*)
 Judge(e) ==
     IF ~e.ok THEN {}
     ELSE IF e.in.kind = "place" THEN C49PlaceClauses(e.single, e.batch, e.perm)
+    ELSE IF e.in.kind = "conc" THEN C49ConcClauses(e.pick_a, e.pick_b, e.picks, e.batches, e.eachs, e.list_a, e.list_b, e.crashes)
     ELSE C49AddClauses(e.before, e.after, e.new)
 
 VARIABLE l
